@@ -13,7 +13,7 @@ def run(ctx):
     # per-node trace validation: every evaluated node of random programs judged locally (evaluation order, selected branch only,
     # operator cells, member access, calls) given its children's observed results
     nd = ctx.record("nodes-random", "nodes", ["-n", 8000 if ctx.thorough else 800, "-seed", ctx.seed * 100 + 53])
-    ctx.validate("nodes-random-validate", "trace/Trace_Nodes.tla", "trace/Trace_Nodes.cfg", nd, "nodes", shards=1)
+    ctx.validate("nodes-random-validate", "trace/Trace_Nodes.tla", "trace/Trace_Nodes.cfg", nd, "nodes", shards=14 if ctx.thorough else 2, cut="start")
     return ctx.finish(
         rule="every program of the family evaluated by the real evaluator under recover and a watchdog; compared: value XOR error "
              "(nil value with an error), pinned values/errors where other properties pin them; plus seeded random programs (depth <= 4, all operators / builtins / value kinds) validated by the trace specification; non-trivial = pinned cases",
